@@ -286,7 +286,7 @@ def run(ctx):
                 "exactly once in order. non-trivial = >=8 judged deliveries each way; distinct over (mode, fault "
                 "class, qtype, codecs, fragsize bucket, -M, lazy, raw/dns).")
     res.assumptions = ["'eventually' restated as B = 30 virtual seconds", "fault prefixes are seeded samples"]
-    n = ctx.pick(48, 1500)
+    n = ctx.pick(120, 12000)
     rng = random.Random(ctx.seed * 9176 + 3)
     plist = []
     for i in range(n):
